@@ -243,6 +243,53 @@ mod hot {
         type Loader = loader::LoadFrom<u64, loader::ParseLoader>;
     }
 
+    /// C01: racing creators of one entry on the real sharded map; handles are kept and read after unrelated insertions
+    /// (a dangling handle is a use-after-free for Miri, not merely a wrong value).
+    pub fn c01(scn: u64) {
+        let mut r = super::Rng(scn ^ 0xC01);
+        let mem = Mem::default();
+        mem.put("a", 7);
+        mem.put("b", 8);
+        let cache = AssetCache::without_hot_reloading(mem.clone());
+        let nthreads = 2 + r.below(2) as usize;
+        let plans: Vec<Vec<u64>> = (0..nthreads).map(|_| (0..1 + r.below(3)).map(|_| r.below(5)).collect()).collect();
+        let addrs: Arc<Mutex<Vec<(u64, usize)>>> = Default::default();
+        std::thread::scope(|s| {
+            for (t, plan) in plans.iter().enumerate() {
+                let (cache, addrs) = (&cache, addrs.clone());
+                s.spawn(move || {
+                    let mut mine: Vec<(&assets_manager::Handle<Heap>, u64)> = vec![];
+                    for (i, p) in plan.iter().enumerate() {
+                        let key = if *p % 2 == 0 { "a" } else { "b" };
+                        let h = match p {
+                            0 | 1 => cache.load::<Heap>(key).unwrap(),
+                            2 | 3 => cache.get_or_insert::<Heap>(key, Heap(vec![100 + t as u64; 8])),
+                            _ => {
+                                for j in 0..40 {
+                                    cache.get_or_insert::<u64>(&format!("fill{t}-{i}-{j}"), j);
+                                }
+                                continue;
+                            }
+                        };
+                        let v = h.read().0[0];
+                        addrs.lock().unwrap().push((*p % 2, h as *const _ as usize));
+                        mine.push((h, v));
+                    }
+                    std::thread::yield_now();
+                    for (h, v) in &mine {
+                        assert!(h.read().0.iter().all(|w| w == v), "C01: a handle reads another value than when it was obtained");
+                    }
+                });
+            }
+        });
+        let a = addrs.lock().unwrap();
+        for k in 0..2 {
+            let mut x: Vec<usize> = a.iter().filter(|e| e.0 == k).map(|e| e.1).collect();
+            x.dedup();
+            assert!(x.windows(2).all(|w| w[0] == w[1]), "C01: one key was handed out at different addresses");
+        }
+    }
+
     pub fn c07(scn: u64) {
         let mut r = super::Rng(scn);
         let mem = Mem::default();
@@ -307,6 +354,7 @@ fn main() {
         Some("C17") => c17(scn),
         Some("C18") => c18(scn),
         Some("C07") => hot::c07(scn),
+        Some("C01") => hot::c01(scn),
         _ => { eprintln!("usage: kernels C07|C16|C17|C18 <scenario>"); std::process::exit(2) }
     }
 }
